@@ -16,12 +16,21 @@ auto, edge-multi with any kink-fit oracle, group triggers) and ALL control histo
 * `C01_oracle_sound`  a record satisfying `RecOK` and the length clause is accepted by the
                       run-time oracle `chkRec` that judges the implementation's records.
 
+* `C01_no_crash`      **no crash, whole source**: from the state `PrepareRun` leaves, NO sequence of
+                      operations — ConfigureTriggers (any channels, also edge-multi, also refused ones),
+                      ConfigurePulseLengths, group-trigger edits, and data blocks of any lengths (also
+                      empty or shorter than a record; one segment of equal length per channel, consecutive
+                      frame numbers) — makes `ProcessSegments` or a request panic: every search read,
+                      every primary record cut, the broker's table look-ups and every secondary
+                      (group-trigger) record cut stay inside the buffers (invariant `SrcSafe`,
+                      `Lemmas/NoCrash.lean`; edge-multi part = `EmtSafe` of C08).
 * `C01_no_crash_nonEMT` no buffer content, trigger state or block length makes the edge / level /
                       auto passes or their record cuts index out of range (`3 ≤ npre < nsamp`).
 -/
 import DastardV.Lemmas.Pipe4
 import DastardV.Lemmas.Passes
 import DastardV.Model.PipeJudge
+import DastardV.Lemmas.NoCrash
 namespace DastardV.C01
 open Trig Pipe
 
@@ -363,6 +372,29 @@ record lengths satisfy the rule `ConfigurePulseLengths` enforces. -/
 theorem C01_no_crash_nonEMT (c : Chan) (zt : ZT) (hv : 3 ≤ c.npre ∧ c.npre < c.nsamp)
     (hem : c.ts.edgeMulti = false) : ∃ c' recs, triggerData c zt = some (c', recs) :=
   triggerData_nonEMT_some c zt hv hem
+
+/-- **No stream content, block pattern or request sequence makes processing crash** — the whole source:
+all channels, every trigger type (edge, level, auto, edge-multi in every record mode with any kink-fit
+oracle that moves a trigger by −1, 0 or +1, group triggers with any connection edits), starting from
+`PrepareRun` with restored or default settings and valid record lengths.  `OpsOK` only asks of the
+blocks what a data source guarantees (one segment per channel, equal lengths — any length, also 0 —,
+consecutive non-negative frame numbers); requests are arbitrary, including refused ones. -/
+theorem C01_no_crash (nch : Nat) (npre nsamp : Int) (saved : List (Nat × TS)) (hv : 3 ≤ npre ∧ npre < nsamp)
+    (zts : List (List (Int × Int)))
+    (hzt : ∀ (j : Nat) (p : Int), -1 ≤ ztOf (zts[j]?.getD []) p ∧ ztOf (zts[j]?.getD []) p ≤ 1)
+    (ops : List Op) (F : Int) (hok : OpsOK nch F ops) :
+    ∃ outs, runOps zts (prepare nch npre nsamp saved) ops = some outs := by
+  obtain ⟨hs, hn⟩ := prepare_safe nch npre nsamp saved hv F
+  exact runOps_safe zts hzt nch ops F _ npre nsamp hs hn hok
+
+/-- `OpsOK` is met by an ordinary history: a block, a reconfiguration to edge-multi, an empty block, a
+one-sample block -/
+example : OpsOK 2 0 [.block 0 0 1000 [false, false] [[1, 2, 3], [4, 5, 6]],
+    .trig { chans := [0], ts := { edgeMulti := true }, compat := ⟨false, false, true, false, 100, 1⟩ },
+    .block 3 3000 1000 [false, false] [[], []], .block 3 3000 1000 [false, false] [[7], [8]]] := by
+  refine ⟨rfl, 3, by simp, by decide, rfl, ?_⟩
+  refine ⟨rfl, 0, by simp, by decide, rfl, ?_⟩
+  exact ⟨rfl, 1, by simp, by decide, rfl, trivial⟩
 
 /-- the hypotheses are satisfiable by an ordinary channel -/
 example : ∃ c : Chan, (3 ≤ c.npre ∧ c.npre < c.nsamp) ∧ c.ts.edgeMulti = false ∧ c.buf.length = 5 :=
